@@ -588,7 +588,41 @@ def m_flow_family_twins(draw, msgs: list) -> list:
     return out
 
 
+LABELLED_SESSIONS = [(i, f) for i, s in enumerate(SESSIONS) for f in ([1, 4], [1, 128]) if f in s['families'] and f not in s['addpath']]
+
+
+def m_same_route_another_label(draw, msgs: list) -> list:
+    """one labelled (or VPN) route announced, then announced again with another label - the label is not part of the route's identity
+    (RFC 8277), so anything keyed by the route meets the first announcement again: the second must still be reported with its own label"""
+    if not LABELLED_SESSIONS:
+        return []
+    i, fam = draw(st.sampled_from(LABELLED_SESSIONS))
+    prefix = bytes([10, draw(st.integers(1, 3)), draw(st.integers(0, 3))])
+    rd = struct.pack('!HHL', 0, 65000, draw(st.integers(1, 2))) if fam[1] == 128 else b''
+    attrs = build.attribute(0x40, 1, b'\x00') + build.attribute(0x40, 2, build.aspath([(2, [SESSIONS[i]['peer_as']])], SESSIONS[i]['asn4'])) + build.attribute(0x40, 5, b'\x00\x00\x00\x64')
+    hop = (bytes(8) if fam[1] == 128 else b'') + bytes([10, 0, 0, 9])
+
+    def announce(label: int) -> list:
+        nlri = bytes([24 + 8 * len(rd) + 24]) + ((label << 4) | 1).to_bytes(3, 'big') + rd + prefix
+        mp = build.attribute(0x80, 14, bytes([0, 1, fam[1], len(hop)]) + hop + b'\x00' + nlri)
+        return [i, UPDATE, build.update_body(b'', attrs + mp, b'').hex()]
+
+    def withdraw() -> list:
+        nlri = bytes([24 + 8 * len(rd) + 24]) + b'\x80\x00\x00' + rd + prefix
+        return [i, UPDATE, build.update_body(b'', build.attribute(0x80, 15, bytes([0, 1, fam[1]]) + nlri), b'').hex()]
+
+    first, second = draw(st.sampled_from([(100, 200), (16, 1048575), (300, 301)]))
+    out = [announce(first)]
+    if draw(st.integers(0, 3)) == 0:
+        out.append(withdraw())
+    out.append(announce(second))
+    if draw(st.booleans()):
+        out.append(announce(first))
+    return out
+
+
 MOTIFS = {
+    'same-route-another-label': (m_same_route_another_label, 2),
     'flow-family-twins': (m_flow_family_twins, 2),
     'withdraw-toggle': (m_withdraw_toggle, 3),
     'cross-identical': (m_cross_identical, 5),
